@@ -57,6 +57,7 @@ Proof.
       left. unfold sreq in A. now rewrite (oi_get_some _ _ _ Hxo) in A. }
   assert (Hv : forall n, vis_of (flush th s) n = vis_of s n) by (intros n; unfold vis_of; now rewrite flush_viss).
   destruct HPx. constructor; unfold Pok, GaveUp in *; rewrite ?L1, ?L2, ?L3, ?L4, ?L5, ?L6, ?L7, ?Hv; auto.
+  rewrite <- L3. exact Hrun.
 Qed.
 
 Lemma conf_of_inst s o i x xo : Rc cs s o -> get i (insts s) = Some x -> get i (oi o) = Some xo ->
@@ -89,7 +90,7 @@ Proof.
     destruct (Nat.eqb_spec (launches i2) 0) as [|Hl0]; [reflexivity|].
     destruct Prelaunch as (c & Hc & (Hpol & Hb) & Hel); [reflexivity|lia|].
     rewrite Hc, Hpol, Hel. destruct (o_stopreq xo) eqn:Es; [specialize (Pstop EW2 eq_refl); discriminate|].
-    cbn. rewrite andb_true_r. destruct Hb as [->|Hb]; [reflexivity|]. apply Nat.leb_le in Hb. rewrite Hb. apply orb_true_r.
+    cbn. destruct Hb as [->|Hb]; [reflexivity|]. apply Nat.leb_le in Hb. rewrite Hb, orb_true_r. reflexivity.
   - (* ERestartDecision *)
     destruct b; [|cbn; destruct (get th (o_th o)); reflexivity].
     cbn in H. kind_cases H.
@@ -97,8 +98,114 @@ Proof.
       destruct (own_th cs _ _ _ _ _ HRc E E0) as (Et & xo & Exo); cbn [ev_inst]; rewrite Et, (oi_get_some _ _ _ Exo);
       pose proof (HP _ _ _ E0 Exo) as HPx end.
     destruct (o_stopreq xo) eqn:Es; [|reflexivity]. exfalso.
-    match goal with E : pc _ = ICodeWritten _ |- _ => rewrite E in HPx end.
-    match goal with E : Bool.eqb true (restart_ok _ _ _ _ _) = true |- _ => apply Bool.eqb_prop in E; symmetry in E; apply restart_ok_spec in E; destruct E as (Ef & _) end.
-    rewrite (p_nostop _ _ _ _ HPx EW Es) in Ef by (rewrite ?E1; reflexivity). discriminate.
-(*STOP*)
+    apply Bool.eqb_prop in E2. symmetry in E2. apply restart_ok_spec in E2. destruct E2 as (Ef & _).
+    rewrite (p_nostop _ _ _ _ HPx EW Es) in Ef; [discriminate|]. rewrite E1. reflexivity.
+  - (* EBackoffWait *)
+    cbn in H. kind_cases H.
+    match goal with E : get th (thinst s) = Some ?i, E0 : get ?i (insts s) = Some ?x |- _ =>
+      destruct (own_th cs _ _ _ _ _ HRc E E0) as (Et & xo & Exo); cbn [ev_inst]; rewrite Et, (oi_get_some _ _ _ Exo);
+      destruct (conf_of_inst _ _ _ _ _ HRc E0 Exo) as (Hcf & _); rewrite Hcf end.
+    assumption.
+  - (* EProcEnded *)
+    cbn [ev_inst]. destruct s0; try reflexivity.
+    cbn in H. unfold step_procend in H. destruct (get i (insts s)) as [x|] eqn:Ex; [|discriminate]. cbv zeta in H.
+    assert (Hpc : exists c, pc x = IInEnd SCompleted c true).
+    { break_step H; split_andb; try discriminate;
+      repeat match goal with E : status_eqb SCompleted _ = true |- _ => apply status_eqb_eq in E; subst end; eauto. }
+    destruct Hpc as (c & Hpc). clear H.
+    destruct (rc_inst _ _ _ HRc _ _ Ex) as (xo & Exo & _). rewrite (oi_get_some _ _ _ Exo).
+    destruct (conf_of_inst _ _ _ _ _ HRc Ex Exo) as (Hcf & _ & Hr). rewrite Hcf, Hr.
+    destruct (p_gaveup _ _ _ _ (HP _ _ _ Ex Exo) c) as (Hc & Hg); [right; eauto|]. rewrite Hc.
+    destruct Hg as [Hg|[Hg|[Hg1 Hg2]]].
+    + rewrite Hg. cbn. rewrite andb_false_r. reflexivity.
+    + rewrite Hg. reflexivity.
+    + apply negb_true_iff. apply andb_false_iff. left. apply andb_false_iff. right.
+      apply orb_false_iff. split; [now apply Nat.eqb_neq|apply Nat.ltb_ge; exact Hg2].
+Qed.
+(* the monitor's checks, in a state related to the observer *)
+Lemma mon_ok_core s o th e s' : Rc cs s o -> P2all s o -> step_core s th e = Some s' ->
+  mon_C02_core cs o (th, e) = true \/ W2 o = true.
+Proof.
+  intros HRc HP H. destruct (W2 o) eqn:EW2; [now right|left].
+  unfold mon_C02_core, mon_C02. cbn [fst snd].
+  destruct e; try (cbn; repeat match goal with |- context[match ?x with _ => _ end] => destruct x end; reflexivity).
+  - (* ELaunch *)
+    destruct ok; [|cbn; destruct (get th (o_th o)); reflexivity].
+    cbn in H. kind_cases H.
+    match goal with E : get th (thinst s) = Some ?i, E0 : get ?i (insts s) = Some ?x |- _ =>
+      destruct (own_th cs _ _ _ _ _ HRc E E0) as (Et & xo & Exo); cbn [ev_inst]; rewrite Et, (oi_get_some _ _ _ Exo);
+      destruct (conf_of_inst _ _ _ _ _ HRc E0 Exo) as (Hcf & Hl & _); rewrite Hcf, Hl;
+      pose proof (HP _ _ _ E0 Exo) as HPx end.
+    destruct HPx as [Pcommit Pstop Pexited Palive Pcode Pdecided Prelaunch Pgaveup Prestarts Ppre Pfstopped Prunctx Pendst Pgone Pnostop Pstatus].
+    match goal with E : pc _ = IStateSet |- _ => rewrite E in * end.
+    destruct (Nat.eqb_spec (launches i2) 0) as [|Hl0]; [reflexivity|].
+    destruct Prelaunch as (c & Hc & (Hpol & Hb) & Hel); [reflexivity|lia|].
+    rewrite Hc, Hpol, Hel. destruct (o_stopreq xo) eqn:Es; [specialize (Pstop EW2 eq_refl); discriminate|].
+    cbn. destruct Hb as [->|Hb]; [reflexivity|]. apply Nat.leb_le in Hb. rewrite Hb, orb_true_r. reflexivity.
+  - (* EBackoffWait *)
+    cbn in H. kind_cases H.
+    match goal with E : get th (thinst s) = Some ?i, E0 : get ?i (insts s) = Some ?x |- _ =>
+      destruct (own_th cs _ _ _ _ _ HRc E E0) as (Et & xo & Exo); cbn [ev_inst]; rewrite Et, (oi_get_some _ _ _ Exo);
+      destruct (conf_of_inst _ _ _ _ _ HRc E0 Exo) as (Hcf & _); rewrite Hcf end.
+    assumption.
+  - (* EProcEnded *)
+    cbn [ev_inst]. destruct s0; try reflexivity.
+    cbn in H. unfold step_procend in H. destruct (get i (insts s)) as [x|] eqn:Ex; [|discriminate]. cbv zeta in H.
+    assert (Hpc : exists c, pc x = IInEnd SCompleted c true).
+    { break_step H; split_andb; try discriminate;
+      repeat match goal with E : status_eqb SCompleted _ = true |- _ => apply status_eqb_eq in E; subst end; eauto. }
+    destruct Hpc as (c & Hpc). clear H.
+    destruct (rc_inst _ _ _ HRc _ _ Ex) as (xo & Exo & _). rewrite (oi_get_some _ _ _ Exo).
+    destruct (conf_of_inst _ _ _ _ _ HRc Ex Exo) as (Hcf & _ & Hr). rewrite Hcf, Hr.
+    destruct (p_gaveup _ _ _ _ (HP _ _ _ Ex Exo) c) as (Hc & Hg); [right; eauto|]. rewrite Hc.
+    destruct Hg as [Hg|[Hg|[Hg1 Hg2]]].
+    + rewrite Hg. cbn. rewrite andb_false_r. reflexivity.
+    + rewrite Hg. reflexivity.
+    + apply negb_true_iff. apply andb_false_iff. left. apply andb_false_iff. right.
+      apply orb_false_iff. split; [now apply Nat.eqb_neq|apply Nat.ltb_ge; exact Hg2].
+Qed.
+
+Lemma fresh_newinst s o th e s' : Rc cs s o -> step_core s th e = Some s' ->
+  forall i n, e = ENewInst i n -> get i (oi o) = None.
+Proof.
+  intros HRc H i n ->. cbn in H. unfold step_reg in H. break_step H.
+  apply negb_true_iff in E0. unfold has in E0. destruct (get i (insts s)) eqn:Ei; [discriminate|].
+  eapply rc_noinst; eauto.
+Qed.
+
+Lemma R2_step s o te s' : R2 s o -> step s te = Some s' ->
+  R2 s' (obs_step cs o te) /\ (mon_C02 cs o te = true \/ W_C02 o = true) /\ (mon_C02_core cs o te = true \/ W_C02_core o = true).
+Proof.
+  destruct te as [th e]. intros [HRc HRt HRd HP] H.
+  pose proof (Rc_step cs _ _ _ _ _ HRc H) as HRc'.
+  unfold step in H. cbn [fst snd] in H.
+  assert (HRc0 : Rc cs (flush th s) o) by (eapply Rc_sys_same; [exact HRc|apply sys_same_flush]).
+  pose proof (Rt_flush th _ _ HRt) as HRt0. pose proof (P2all_flush th _ _ HRt HP) as HP0.
+  split; [constructor|split].
+  - exact HRc'.
+  - eapply Rt_step_core; eauto.
+  - apply Rd_step; [|exact HRd]. eapply fresh_newinst; eauto.
+  - eapply P2all_step_core; eauto.
+  - eapply mon_ok; eauto.
+  - eapply mon_ok_core; eauto.
+Qed.
 End R2.
+
+(* ---- the theorems ------------------------------------------------------------------------------------------ *)
+Theorem C02_main : forall cs ord evs s,
+  accept (init cs ord) evs = Some s -> W_C02 (final_obs cs evs) = false -> holds_C02 cs evs = true.
+Proof.
+  intros cs ord evs s Hacc HW. unfold holds_C02.
+  eapply (sim_holds_partial cs ord (R2 cs) (mon_C02 cs) W_C02 (R2_init cs ord)); eauto.
+  - intros s0 o e s1 HR Hs. destruct (R2_step cs _ _ _ _ HR Hs) as (A & B & _). auto.
+  - intros o e. apply W4_mono.
+Qed.
+
+Theorem C02_core : forall cs ord evs s,
+  accept (init cs ord) evs = Some s -> W_C02_core (final_obs cs evs) = false -> holds cs mon_C02_core evs = true.
+Proof.
+  intros cs ord evs s Hacc HW.
+  eapply (sim_holds_partial cs ord (R2 cs) (mon_C02_core cs) W_C02_core (R2_init cs ord)); eauto.
+  - intros s0 o e s1 HR Hs. destruct (R2_step cs _ _ _ _ HR Hs) as (A & _ & B). auto.
+  - intros o e. apply W2_mono.
+Qed.
